@@ -51,7 +51,7 @@ Definition run_c04_cswap (i : (Z * Z * Z * Z * Z) * (Z * Z * Z * Z) * (Z * Z * Z
   match i with (t, (op, ask, uns, x), (p, s, b)) => obs_of swapc_obs (compute_swap3 (ramp5 t) op ask uns x (mkFees p s b)) end.
 
 (* ---- pool histories on the deployed trio ---------------------------------------------------------- *)
-From WW Require Export Stable3Pool.
+From WW Require Export CPSwap Stable3Pool.
 
 Definition pool_obs (p : pool) : list Z :=
   list3 (p_bal p) ++ list3 (p_fee p) ++ list3 (p_all p) ++ list3 (p_burn p) ++ [p_supply p] ++ p_lp p ++ [p_lp_self p]
